@@ -15,6 +15,7 @@ import (
 	"path/filepath"
 	"strings"
 	"sync"
+	"syscall"
 	"time"
 )
 
@@ -77,6 +78,33 @@ func NewSolver(cacheDir, workDir string, timeout, seed int) *Solver {
 
 var procSlots = make(chan struct{}, 16)
 
+// globalSlot takes one of 16 advisory file locks shared by all govc processes of the machine.
+func globalSlot(ctx context.Context) func() {
+	dir := filepath.Join(os.TempDir(), "govc-slots")
+	os.MkdirAll(dir, 0o777)
+	for {
+		for i := 0; i < 16; i++ {
+			f, err := os.OpenFile(filepath.Join(dir, fmt.Sprintf("slot-%02d", i)), os.O_CREATE|os.O_RDWR, 0o666)
+			if err != nil {
+				// no usable lock directory: fall back to the per-process limit only
+				return func() {}
+			}
+			if syscall.Flock(int(f.Fd()), syscall.LOCK_EX|syscall.LOCK_NB) == nil {
+				return func() {
+					syscall.Flock(int(f.Fd()), syscall.LOCK_UN)
+					f.Close()
+				}
+			}
+			f.Close()
+		}
+		select {
+		case <-ctx.Done():
+			return nil
+		case <-time.After(40 * time.Millisecond):
+		}
+	}
+}
+
 func runOne(ctx context.Context, sd solverDef, file string, timeout, seed int) (string, string) {
 	select {
 	case procSlots <- struct{}{}:
@@ -84,6 +112,14 @@ func runOne(ctx context.Context, sd solverDef, file string, timeout, seed int) (
 	case <-ctx.Done():
 		return "cancelled", ""
 	}
+	// machine-wide slot: several checks may run at the same time; together they never run
+	// more solver processes than there are cores, and a solver's time limit starts only
+	// once it has a slot
+	release := globalSlot(ctx)
+	if release == nil {
+		return "cancelled", ""
+	}
+	defer release()
 	args := sd.args(file, timeout, seed)
 	cctx, cancel := context.WithTimeout(ctx, time.Duration(timeout+2)*time.Second)
 	defer cancel()
